@@ -127,7 +127,7 @@ def r3_for_ref_tuple(text, log, file, base_line):
     return text
 
 
-DROP_ATTR = re.compile(r'^[ \t]*#\[(must_use|inline(\([a-z]*\))?|doc\(hidden\)|allow\([^\]]*\))\][ \t]*\n', re.M)
+DROP_ATTR = re.compile(r'^[ \t]*#\[(must_use|inline(\([a-z]*\))?|doc\(hidden\)|allow\([^\]]*\)|error\([^\]]*\))\][ \t]*\n', re.M)
 DOC_LINE = re.compile(r'^[ \t]*///.*\n', re.M)
 
 
